@@ -13,8 +13,9 @@ use crate::script::*;
 use arbitrary::Unstructured;
 
 fn dact(u: &mut Unstructured<'_>, depth: u32) -> arbitrary::Result<DAct> {
-    Ok(match u.int_in_range(0u8..=5)? {
+    Ok(match u.int_in_range(0u8..=6)? {
         0 => DAct::UpgradeOwnWeak(u.arbitrary()?),
+        6 => DAct::DowngradeOwnSlot(u.arbitrary()?),
         1 => DAct::DropOwnSlot(u.arbitrary()?),
         2 => DAct::Observe,
         _ => DAct::Do(Box::new(op(u, false, depth + 1)?)),
@@ -38,7 +39,7 @@ fn op(u: &mut Unstructured<'_>, consume: bool, depth: u32) -> arbitrary::Result<
         3 => if u.ratio(1u8, 3u8)? { Op::DropClosureRoots(u.arbitrary()?) } else { Op::DropRoot(u.arbitrary()?) },
         4 | 5 => Op::Store { owner: u.arbitrary()?, target: u.arbitrary()?, adopt: u.int_in_range(0u8..=2)? },
         6 => Op::AdoptSlot { pick: u.arbitrary()?, same_instance: u.arbitrary()? },
-        7 => Op::Unadopt { a: u.arbitrary()?, b: u.arbitrary()? },
+        7 => if u.ratio(1u8, 4u8)? { Op::LoopbackAdopt(u.arbitrary()?) } else { Op::Unadopt { a: u.arbitrary()?, b: u.arbitrary()? } },
         8 => Op::Remove { owner: u.arbitrary()?, slot: u.arbitrary()?, unadopt: u.arbitrary()?, keep: u.arbitrary()? },
         9 => Op::Downgrade(u.arbitrary()?),
         10 => Op::CloneWeak(u.arbitrary()?),
@@ -107,6 +108,7 @@ pub fn run_bytes(data: &[u8]) {
         exclude_known: false,
         digest: false,
         strict_loopback: false,
+        shallow_clone: s.layout_seed & 1 == 1,
     };
     let r = std::panic::catch_unwind(std::panic::AssertUnwindSafe(|| crate::interp::run_script_body(&s, cfg)));
     if let Err(e) = r {
